@@ -49,9 +49,21 @@ def pick(lst, i):
 # model of typed values
 # ---------------------------------------------------------------------------------------
 
-def model_encode(st, op):
+def resolve(st, op):
+    """Resolve the op's object indices once (the pool may grow while the model registers children)."""
+    r = {}
+    if op.get('c') is not None and st.cells:
+        r['c'] = op['c'] % len(st.cells)
+    if op.get('s') is not None and st.slices:
+        r['s'] = op['s'] % len(st.slices)
+    return r
+
+
+def model_encode(st, op, r=None):
     """-> (bits, ref_handles) or raises tlb.EncodeError when the value has no such encoding."""
     t = op['t']
+    if r is None:
+        r = resolve(st, op)
     if t == 'uint':
         return tlb.enc_uint(op['v'], op['n']), []
     if t == 'int':
@@ -79,16 +91,16 @@ def model_encode(st, op):
         any_ = tuple(op['any']) if op.get('any') else None
         return tlb.enc_addr_std(op['wc'], bytes.fromhex(op['acc']), any_), []
     if t in ('maybe_ref', 'dict'):
-        if op.get('c') is None or not st.cells:
+        if 'c' not in r:
             return '0', []
-        return '1', [op['c'] % len(st.cells)]
+        return '1', [r['c']]
     if t == 'ref':
-        return '', [op['c'] % len(st.cells)]
+        return '', [r['c']]
     if t == 'cell':
-        e = st.cells[op['c'] % len(st.cells)]
-        return e['twin'].bits, [st.handle_of(r) for r in e['lib'].refs]
+        e = st.cells[r['c']]
+        return e['twin'].bits, [st.handle_of(x) for x in e['lib'].refs]
     if t == 'slice':
-        s = st.slices[op['s'] % len(st.slices)]
+        s = st.slices[r['s']]
         return s['bits'], list(s['refs'])
     raise AssertionError(t)
 
@@ -107,9 +119,11 @@ def value_class(op):
     return t
 
 
-def lib_store(st, be, op):
+def lib_store(st, be, op, r=None):
     b = be['lib']
     t = op['t']
+    if r is None:
+        r = resolve(st, op)
     if t == 'uint':
         return call(b.store_uint, op['v'], op['n'])
     if t == 'int':
@@ -152,14 +166,14 @@ def lib_store(st, be, op):
             return call(b.store_address, a.to_str(is_user_friendly=False))
         return call(b.store_address, a)
     if t in ('maybe_ref', 'dict'):
-        c = None if (op.get('c') is None or not st.cells) else st.cells[op['c'] % len(st.cells)]['lib']
+        c = None if 'c' not in r else st.cells[r['c']]['lib']
         return call(b.store_maybe_ref if t == 'maybe_ref' else b.store_dict, c)
     if t == 'ref':
-        return call(b.store_ref, st.cells[op['c'] % len(st.cells)]['lib'])
+        return call(b.store_ref, st.cells[r['c']]['lib'])
     if t == 'cell':
-        return call(b.store_cell, st.cells[op['c'] % len(st.cells)]['lib'])
+        return call(b.store_cell, st.cells[r['c']]['lib'])
     if t == 'slice':
-        return call(b.store_slice, st.slices[op['s'] % len(st.slices)]['lib'])
+        return call(b.store_slice, st.slices[r['s']]['lib'])
     raise AssertionError(t)
 
 
@@ -339,7 +353,7 @@ def lib_value(st, t, v):
 
 class BuildWorld(HistoryWorld):
     name = 'BUILD'
-    legs = {'quick': [('main', 6000)], 'thorough': [('main', 150000)]}
+    legs = {'quick': [('main', 40000)], 'thorough': [('main', 1500000)]}
     budget = {'quick': 100, 'thorough': 1500}
     chunk = 60
     real_code = ['pytoniq_core.boc.builder.Builder (all store_*)', 'pytoniq_core.boc.slice.Slice (all load_*/preload_*)',
@@ -870,8 +884,9 @@ class BuildWorld(HistoryWorld):
         if t in ('snake_bytes', 'snake_string'):
             return self._store_snake(st, be, op, ctx, rem_bits, rem_refs)
         reason = None
+        res = resolve(st, op)
         try:
-            bits, refs = model_encode(st, op)
+            bits, refs = model_encode(st, op, res)
         except tlb.EncodeError:
             reason = 'range'
             bits, refs = '', []
@@ -897,12 +912,12 @@ class BuildWorld(HistoryWorld):
         if klass == 'minimal-length-top-bit-set':
             ctx.probe('var-int-top-bit-class')
         if t == 'slice':
-            se = st.slices[op['s'] % len(st.slices)]
+            se = st.slices[res['s']]
             if se['lib'].ref_offset > 0:
                 klass = 'partly-consumed-refs'
                 ctx.probe('store-partly-consumed-slice')
         before_bits = len(be['bits'])
-        ok, res = lib_store(st, be, op)
+        ok, res = lib_store(st, be, op, res)
         ctx.obs(ok)
         if reason is None:
             if not ok:
